@@ -127,6 +127,7 @@ theorem page_written_gen (cfg : Config) (leaf : LeafInfo) (dict : Option (List B
     (hdv : ∀ d, dict = some d → ∀ v ∈ d, v.length < 2 ^ 31)
     (ho : ∀ e ∈ a.oracle, oracleLookup cfg.oracle e.1 = some e.2) :
     ∃ p : RawPage, readRawPage cfg pl.comp.codec (a.bytes ++ rest) = .ok p ∧ p.hdr.type = 0 ∧ p.rest = rest ∧
+      RawPage.usize p = a.usize ∧
       ∃ dh, p.hdr.data = some dh ∧ dh.encoding = valueEncTag pl.values ∧ decodeDataPage leaf dict dh p.page = .ok es := by
   obtain ⟨repB, defB, valB, comp, hr, hd, hv, hc, hbytes, horacle, husize⟩ := writeDataPage_adm hp h1
   have hge := v1Body_length_ge leaf es repB defB valB
@@ -165,7 +166,10 @@ theorem page_written_gen (cfg : Config) (leaf : LeafInfo) (dict : Option (List B
   rw [hhdr] at hbytes
   have hraw := readRawPage_of cfg pl.comp.codec pl.form fs _ pl.crc body comp rest hpwf hf2 (Or.inl rfl) rfl rfl rfl hdecomp
   rw [← hbytes] at hraw
-  exact ⟨_, hraw, rfl, rfl, _, rfl, rfl, hdec⟩
+  refine ⟨_, hraw, rfl, rfl, ?_, _, rfl, rfl, hdec⟩
+  rw [husize, hhdr]
+  simp only [RawPage.usize]
+  omega
 
 theorem writeDataPage_ne_nil {leaf : LeafInfo} {dict : Option (List Bytes)} {pl : PageLayout} {es : List Entry} {w : Written}
     (hp : PageAdm pl) (hw : writeDataPage leaf dict pl es = some w) : w.bytes ≠ [] := by
@@ -229,7 +233,7 @@ theorem readDataPages_written_gen (cfg : Config) (codec : Nat) (leaf : LeafInfo)
             have ih := readDataPages_written_gen cfg codec leaf dict encodings hdv r (es.drop pl.count) b f
               (fun p hp => henc p (by simp [hp])) (fun p hp => hpl p (by simp [hp])) h2 hwf2 (by omega) (by omega)
               (by simp; omega) (fun e he => ho e (by simp [he])) (by simp at hf; omega)
-            obtain ⟨p, hraw, hty, hrest, dh, hdh, hencd, hdec⟩ := page_written_gen cfg leaf dict pl (es.take pl.count) a
+            obtain ⟨p, hraw, hty, hrest, _, dh, hdh, hencd, hdec⟩ := page_written_gen cfg leaf dict pl (es.take pl.count) a
               b.bytes hadm h1 hwf1 (by omega) (by omega) (by simp; omega) hdv (fun e he => ho e (by simp [he]))
             rw [hcodec] at hraw
             have hne : a.bytes ++ b.bytes ≠ [] := by
@@ -240,6 +244,56 @@ theorem readDataPages_written_gen (cfg : Config) (codec : Nat) (leaf : LeafInfo)
             rw [if_neg hne, hraw]
             simp only [hty, hdh, hencd, hcont, hdec, hrest, ih, Bool.not_true, Bool.false_eq_true, if_false, if_true]
             simp [List.take_append_drop]
+
+/-- **uncompressed size of the chained pages, admissible pages**: the independent reader's sum of page
+headers and uncompressed page sizes over what `writeDataPages` laid out is the `usize` the reference
+writer records -/
+theorem chunkUsize_written_gen (cfg : Config) (codec : Nat) (leaf : LeafInfo) (dict : Option (List Bytes))
+    (hdv : ∀ d, dict = some d → ∀ v ∈ d, v.length < 2 ^ 31) :
+    ∀ (pls : List PageLayout) (es : List Entry) (w : Written) (fuel : Nat),
+      (∀ pl ∈ pls, PageAdm pl ∧ pl.comp.codec = codec) → writeDataPages leaf dict pls es = some w →
+      (∀ e ∈ es, wellFormedEntry leaf e = true) → w.bytes.length < 2 ^ 31 → w.usize < 2 ^ 31 → es.length < 2 ^ 31 →
+      (∀ e ∈ w.oracle, oracleLookup cfg.oracle e.1 = some e.2) → pls.length < fuel →
+      chunkUsize fuel w.bytes = some w.usize
+  | [], es, w, fuel, _, hw, _, _, _, _, _, hf => by
+    simp only [writeDataPages] at hw
+    split at hw
+    · cases hw
+      cases fuel with
+      | zero => simp at hf
+      | succ f => simp [chunkUsize]
+    · cases hw
+  | pl :: r, es, w, fuel, hpl, hw, hwf, hlen, hus, hes, ho, hf => by
+    simp only [writeDataPages] at hw
+    split at hw
+    · cases hw
+    · rename_i hcount
+      cases h1 : writeDataPage leaf dict pl (es.take pl.count) with
+      | none => simp [h1] at hw
+      | some a =>
+        cases h2 : writeDataPages leaf dict r (es.drop pl.count) with
+        | none => simp [h1, h2] at hw
+        | some b =>
+          simp only [h1, h2, Option.some.injEq] at hw
+          subst hw
+          simp only [List.length_append] at hlen
+          simp only at hus ho
+          have hwf1 : ∀ e ∈ es.take pl.count, wellFormedEntry leaf e = true := fun e he => hwf e (List.mem_of_mem_take he)
+          have hwf2 : ∀ e ∈ es.drop pl.count, wellFormedEntry leaf e = true := fun e he => hwf e (List.mem_of_mem_drop he)
+          obtain ⟨hadm, hcodec⟩ := hpl pl (by simp)
+          cases fuel with
+          | zero => simp at hf
+          | succ f =>
+            have ih := chunkUsize_written_gen cfg codec leaf dict hdv r (es.drop pl.count) b f
+              (fun p hp => hpl p (by simp [hp])) h2 hwf2 (by omega) (by omega)
+              (by simp; omega) (fun e he => ho e (by simp [he])) (by simp at hf; omega)
+            obtain ⟨p, hraw, _, hrest, husz, _⟩ := page_written_gen cfg leaf dict pl (es.take pl.count) a
+              b.bytes hadm h1 hwf1 (by omega) (by omega) (by simp; omega) hdv (fun e he => ho e (by simp [he]))
+            have hne : a.bytes ++ b.bytes ≠ [] := by
+              intro h
+              exact writeDataPage_ne_nil hadm h1 (List.append_eq_nil_iff.mp h).1
+            rw [chunkUsize_of_raw cfg _ _ p f hne hraw, hrest, ih, husz]
+            rfl
 
 theorem pages_count_le (leaf : LeafInfo) (dict : Option (List Bytes)) :
     ∀ (pls : List PageLayout) (es : List Entry) (w : Written), (∀ pl ∈ pls, PageAdm pl) →
